@@ -138,7 +138,7 @@ def run(cx):
             for nm, rx in (('queries', r'try_from\(try\(EmitAndCount::emit\(arg2,arg8\)\)@Continue\.0\)@Ok\.0'),
                            ('answers', r'try\(message::count_was_truncated\(EmitAndCount::emit\(arg3,arg8\)\)\)@Continue\.0\.0'),
                            ('authorities', r'try\(message::count_was_truncated\(EmitAndCount::emit\(arg4,arg8\)\)\)@Continue\.0\.0'),
-                           ('additionals', r'var\(additional_count\)\.0')):
+                           ('additionals', r'var\(\w+\)\.0')):
                 cx.check('C03.S1', bool(re.search(rx, s.term)), f.path, s.key(), 'header-count-from-emitter:' + nm, s.term[:300], s.loc)
             cx.check('C03.S1', bool(re.search(r'^Place::replace\(try\(BinEncoder::place\(arg8\)\)@Continue\.0,arg8,Header\(', s.term)), f.path, s.key(), 'backpatch-at-reserved-place', s.term[:120], s.loc)
         tc = cx.assigns(f, r'.', place=r'truncation$')
